@@ -54,6 +54,7 @@ var Mutators = []Mutator{
 	{"fake-import", mutFakeImport},
 	{"blank-ident", mutBlank},
 	{"local-shadow", mutLocalShadow},
+	{"file-header", mutFileHeader},
 }
 
 // MutatorByName finds a mutator.
@@ -777,4 +778,23 @@ func mutLocalShadow(t *rapid.T, p *core.Program) ([]Edit, bool) {
 	d := pick(t, "decl", decls)
 	at := off(p, b.body.Lbrace) + 1
 	return []Edit{{b.file, at, at, " " + d + " "}}, true
+}
+
+// file-header: text before the package clause of one file — build constraints (which also set the
+// file's language version), generated-code markers, licence blocks, directives.
+
+var fileHeaders = []string{
+	"//go:build go1.12\n\n", "//go:build go1.16\n\n", "//go:build go1.18\n\n", "//go:build go1.21\n\n", "//go:build go1.22 && !ignore\n\n",
+	"//go:build !ignore\n// +build !ignore\n\n", "// +build !ignore\n\n",
+	"// Code generated by verif. DO NOT EDIT.\n\n", "// Copyright 2024 The Authors. All rights reserved.\n// Use of this source code is governed by a licence.\n\n",
+	"/* block header */\n\n", "//go:generate echo x\n\n", "//nolint:all\n\n", "// Package p is documented here.\n",
+	"//go:build go1.18\n\n// Package p has a constraint and a doc comment.\n",
+}
+
+func mutFileHeader(t *rapid.T, p *core.Program) ([]Edit, bool) {
+	fi := rapid.IntRange(0, len(p.Files)-1).Draw(t, "headerFile")
+	if strings.HasPrefix(string(p.Srcs[fi]), "//go:build") || strings.HasPrefix(string(p.Srcs[fi]), "// +build") {
+		return nil, false
+	}
+	return []Edit{{fi, 0, 0, pick(t, "header", fileHeaders)}}, true
 }
